@@ -530,6 +530,13 @@ def arr_tofile(eng, st, args, kwargs, line):
     eng.assume_tag("A-NP")
     eng.assume_tag("A-IO")
     a, fo = args[0], args[1]
+    if isinstance(fo, (VStr, VOpaque)):
+        # ndarray.tofile(<file name>): numpy creates/truncates the file and writes the whole array to it - modelled as a
+        # fresh output file whose ghost is kept in the state (spec function named_out())
+        (st_, oc_), = outfile_new(eng, st, [fo, VStr("wb")], {}, line)
+        fo = oc_.value
+        st.ghost["named_out"] = fo
+        st.ghost["named_out_count"] = st.ghost.get("named_out_count", 0) + 1
     if not (isinstance(fo, VObj) and fo.cls == "OutFile"):
         raise OutOfSubset(f"line {line}: tofile target {fo!r}")
     if not isinstance(a, VArr):
